@@ -438,7 +438,7 @@ func (m *scanModel) knownCharAt(b *ssa.BasicBlock) (*int64, ssa.Value) {
 		if callee := staticCallee(call); callee == nil || !m.peekLike[callee] || callee.Signature.Params().Len() != 0 {
 			continue
 		}
-		if !(id.Succs[0] == d || id.Succs[0].Dominates(d)) {
+		if !edgeOnly(id, 0, d) {
 			continue
 		}
 		v := c.Int64()
@@ -785,7 +785,7 @@ func (m *scanModel) knownPredsAt(b *ssa.BasicBlock) map[*ssa.Function]bool {
 		if pcallee := staticCallee(pc); pcallee == nil || !m.peekLike[pcallee] {
 			continue
 		}
-		if id.Succs[0] == d || id.Succs[0].Dominates(d) {
+		if edgeOnly(id, 0, d) {
 			out[callee] = true
 		}
 	}
